@@ -420,6 +420,124 @@ SYNTH_STATIC = {
         return;
     }
 }''',
+    '__and_then': '''fn __and_then(_1: Option, _2: F) -> Option {
+    bb0: {
+        _3 = discriminant(_1);
+        switchInt(move _3) -> [0: bb1, otherwise: bb2];
+    }
+    bb1: {
+        _0 = move _1;
+        return;
+    }
+    bb2: {
+        _4 = move ((_1 as Some).0: E);
+        _0 = __call_value(move _2, move _4) -> [return: bb3, unwind continue];
+    }
+    bb3: {
+        return;
+    }
+}''',
+    '__res_and_then': '''fn __res_and_then(_1: Result, _2: F) -> Result {
+    bb0: {
+        _3 = discriminant(_1);
+        switchInt(move _3) -> [0: bb2, otherwise: bb1];
+    }
+    bb1: {
+        _0 = move _1;
+        return;
+    }
+    bb2: {
+        _4 = move ((_1 as Ok).0: E);
+        _0 = __call_value(move _2, move _4) -> [return: bb3, unwind continue];
+    }
+    bb3: {
+        return;
+    }
+}''',
+    '__unwrap_or_else': '''fn __unwrap_or_else(_1: Option, _2: F) -> T {
+    bb0: {
+        _3 = discriminant(_1);
+        switchInt(move _3) -> [0: bb2, otherwise: bb1];
+    }
+    bb1: {
+        _0 = move ((_1 as Some).0: E);
+        return;
+    }
+    bb2: {
+        _0 = __call_value(move _2) -> [return: bb3, unwind continue];
+    }
+    bb3: {
+        return;
+    }
+}''',
+    '__res_unwrap_or_else': '''fn __res_unwrap_or_else(_1: Result, _2: F) -> T {
+    bb0: {
+        _3 = discriminant(_1);
+        switchInt(move _3) -> [0: bb1, otherwise: bb2];
+    }
+    bb1: {
+        _0 = move ((_1 as Ok).0: E);
+        return;
+    }
+    bb2: {
+        _4 = move ((_1 as Err).0: E);
+        _0 = __call_value(move _2, move _4) -> [return: bb3, unwind continue];
+    }
+    bb3: {
+        return;
+    }
+}''',
+    # iterator consumers with a predicate: any / all / position / find, and fold-like count
+    '__iter_any': '''fn __iter_any(_1: &mut I, _2: F) -> bool {
+    bb0: {
+        _3 = __iter_next(copy _1) -> [return: bb1, unwind continue];
+    }
+    bb1: {
+        _4 = discriminant(_3);
+        switchInt(move _4) -> [0: bb5, otherwise: bb2];
+    }
+    bb2: {
+        _5 = move ((_3 as Some).0: T);
+        _7 = &mut _2;
+        _6 = __call_value(copy _7, move _5) -> [return: bb3, unwind continue];
+    }
+    bb3: {
+        switchInt(move _6) -> [0: bb0, otherwise: bb4];
+    }
+    bb4: {
+        _0 = const true;
+        return;
+    }
+    bb5: {
+        _0 = const false;
+        return;
+    }
+}''',
+    '__iter_all': '''fn __iter_all(_1: &mut I, _2: F) -> bool {
+    bb0: {
+        _3 = __iter_next(copy _1) -> [return: bb1, unwind continue];
+    }
+    bb1: {
+        _4 = discriminant(_3);
+        switchInt(move _4) -> [0: bb5, otherwise: bb2];
+    }
+    bb2: {
+        _5 = move ((_3 as Some).0: T);
+        _7 = &mut _2;
+        _6 = __call_value(copy _7, move _5) -> [return: bb3, unwind continue];
+    }
+    bb3: {
+        switchInt(move _6) -> [0: bb4, otherwise: bb0];
+    }
+    bb4: {
+        _0 = const false;
+        return;
+    }
+    bb5: {
+        _0 = const true;
+        return;
+    }
+}''',
     # next() of FilterMap / Map / Cloned adaptors
     '__filter_map_next': '''fn __filter_map_next(_1: &mut I) -> Option {
     bb0: {
@@ -439,6 +557,30 @@ SYNTH_STATIC = {
     }
     bb4: {
         _0 = move _5;
+        return;
+    }
+    bb5: {
+        _0 = Option::<T>::None;
+        return;
+    }
+}''',
+    '__filter_next': '''fn __filter_next(_1: &mut I) -> Option {
+    bb0: {
+        _2 = __adapt_inner_next(copy _1) -> [return: bb1, unwind continue];
+    }
+    bb1: {
+        _3 = discriminant(_2);
+        switchInt(move _3) -> [0: bb5, otherwise: bb2];
+    }
+    bb2: {
+        _4 = &((_2 as Some).0: T);
+        _5 = __adapt_call(copy _1, copy _4) -> [return: bb3, unwind continue];
+    }
+    bb3: {
+        switchInt(move _5) -> [0: bb0, otherwise: bb4];
+    }
+    bb4: {
+        _0 = move _2;
         return;
     }
     bb5: {
@@ -734,6 +876,70 @@ def model(ex, st, c, args):
         if r.variant != 0:
             raise Panic('called `Result::unwrap()` on an `Err` value')
         return r.fields[0]
+    if c in ('Option::is_some', 'Option::is_none'):
+        o = D(args[0])
+        v = o.variant
+        if isinstance(v, int):
+            return z3.BoolVal((v == 1) == (c == 'Option::is_some'))
+        return (v == 1) if c == 'Option::is_some' else (v == 0)
+    if c in ('Result::is_ok', 'Result::is_err'):
+        o = D(args[0])
+        return z3.BoolVal((o.variant == 0) == (c == 'Result::is_ok'))
+    if c == 'Result::ok':
+        r = args[0]
+        return some(r.fields[0]) if r.variant == 0 else none()
+    if c == 'Result::err':
+        r = args[0]
+        return some(r.fields[0]) if r.variant == 1 else none()
+    if c == 'Result::unwrap_or':
+        r = args[0]
+        return r.fields[0] if r.variant == 0 else args[1]
+    if c in ('Result::expect', 'Option::expect'):
+        r = args[0]
+        good = (r.variant == 0) if c.startswith('Result') else (r.variant == 1)
+        if not good:
+            raise Panic('%s failed' % c)
+        return r.fields[0]
+    if c == 'Option::take':
+        ref = args[0]
+        cell, path = ex.deref_target(ref)
+        cur = ex.load(cell, path)
+        ex.store(cell, path, none())
+        return cur
+    if c == 'Option::replace':
+        ref = args[0]
+        cell, path = ex.deref_target(ref)
+        cur = ex.load(cell, path)
+        ex.store(cell, path, some(args[1]))
+        return cur
+    if c in ('Option::get_or_insert', 'Option::insert'):
+        ref = args[0]
+        cell, path = ex.deref_target(ref)
+        cur = ex.load(cell, path)
+        if cur.variant == 0 or c == 'Option::insert':
+            ex.store(cell, path, some(args[1]))
+        return Ref(cell, list(path) + [('downcast', 'Some'), ('field', 0)], mut=True)
+    if c in ('Option::as_ref', 'Option::as_mut', 'Option::as_deref'):
+        ref = args[0]
+        cell, path = ex.deref_target(ref)
+        cur = ex.load(cell, path)
+        if cur.variant == 0:
+            return none()
+        return some(Ref(cell, list(path) + [('downcast', 'Some'), ('field', 0)], mut=(c == 'Option::as_mut')))
+    if c == 'Option::and_then':
+        return ('BODY', synth_static(ex, '__and_then'), args)
+    if c == 'Result::and_then':
+        return ('BODY', synth_static(ex, '__res_and_then'), args)
+    if c == 'Option::unwrap_or_else':
+        return ('BODY', synth_static(ex, '__unwrap_or_else'), args)
+    if c == 'Result::unwrap_or_else':
+        return ('BODY', synth_static(ex, '__res_unwrap_or_else'), args)
+    if c == 'Option::or':
+        return args[0] if args[0].variant == 1 else args[1]
+    if c == 'Option::and':
+        return args[1] if args[0].variant == 1 else none()
+    if c == 'Option::unwrap_or_default' or c == 'Result::unwrap_or_default':
+        raise Unsupported(c)
     if c == 'Option::map':
         return ('BODY', synth_static(ex, '__opt_map'), args)
     if c == 'Option::ok_or_else':
@@ -784,6 +990,36 @@ def model(ex, st, c, args):
     if c == 'Vec::pop':
         v = D(args[0])
         return some(v.items.pop()) if v.items else none()
+    if c in ('Vec::as_slice', 'Vec::as_mut_slice', 'Vec::as_ref', '<Vec<T> as AsRef<[T]>>::as_ref', 'Vec::iter', 'Vec::iter_mut'):
+        if c in ('Vec::iter', 'Vec::iter_mut'):
+            return IterV(args[0], 0, len(D(args[0]).items))
+        return args[0]
+    if c in ('Vec::is_empty',):
+        return z3.BoolVal(len(D(args[0]).items) == 0)
+    if c == 'Vec::clear':
+        D(args[0]).items[:] = []
+        return mkunit()
+    if c == 'Vec::truncate':
+        v = D(args[0])
+        n = ex.concrete_int(args[1])
+        del v.items[n:]
+        return mkunit()
+    if c in ('Vec::insert', 'Vec::remove'):
+        v = D(args[0])
+        i = ex.concrete_int(args[1])
+        if c == 'Vec::insert':
+            if i > len(v.items):
+                raise Panic('insertion index out of bounds')
+            v.items.insert(i, args[2])
+            return mkunit()
+        if i >= len(v.items):
+            raise Panic('removal index out of bounds')
+        return v.items.pop(i)
+    if c in ('Vec::extend_from_slice',):
+        D(args[0]).items.extend(copy_value(x) for x in D(args[1]).items)
+        return mkunit()
+    if c in ('core::slice::<impl [T]>::to_vec', 'slice::<impl [T]>::to_vec', '<[T] as ToOwned>::to_owned') or re.fullmatch(r'(core::)?slice::<impl \[.*\]>::to_vec', c):
+        return VecV([copy_value(x) for x in D(args[0]).items])
     if c == 'Vec::swap_remove':
         v = D(args[0])
         i = args[1]
@@ -818,7 +1054,25 @@ def model(ex, st, c, args):
             raise Panic('index out of bounds: the len is %d' % n)
         r = args[0]
         return Ref(r.cell, list(r.path) + [('index', k)])
-    if re.fullmatch(r'<\[.*\] as Index<std::ops::RangeFrom<usize>>>::index', c):
+    mm = re.fullmatch(r'<(?:\[.*\]|Vec<.*>) as Index<std::ops::(Range|RangeTo|RangeInclusive|RangeToInclusive|RangeFull)(?:<usize>)?>>::index', c)
+    if mm:
+        v = D(args[0])
+        n = len(v.items)
+        rng = args[1]
+        kind_ = mm.group(1)
+        lo = rng.fields[0] if kind_ in ('Range', 'RangeInclusive') else usize(0)
+        hi = {'Range': lambda: rng.fields[1], 'RangeTo': lambda: rng.fields[0], 'RangeInclusive': lambda: Int(rng.fields[1].t + 1, False),
+              'RangeToInclusive': lambda: Int(rng.fields[0].t + 1, False), 'RangeFull': lambda: usize(n)}[kind_]()
+        opts = []
+        for i in range(n + 1):
+            for j in range(i, n + 1):
+                opts.append((z3.And(lo.t == bv(i, 64), hi.t == bv(j, 64)), (i, j)))
+        opts.append((z3.Not(z3.Or(*[o[0] for o in opts])), 'panic'))
+        t = B(opts)
+        if t == 'panic':
+            raise Panic('slice index out of range (or start > end)')
+        return Ref(st.new_cell(VecV(v.items[t[0]:t[1]])), [])
+    if re.fullmatch(r'<\[.*\] as Index<std::ops::RangeFrom<usize>>>::index', c) or re.fullmatch(r'<Vec<.*> as Index<std::ops::RangeFrom<usize>>>::index', c):
         v = D(args[0])
         i = args[1].fields[0]
         n = len(v.items)
@@ -1008,6 +1262,159 @@ def model(ex, st, c, args):
         return CharsV(args[0], 0, len(v.items))
     if c == 'char::methods::<impl char>::is_whitespace':
         return is_ws(args[0].t)
+    mm = re.fullmatch(r'char::methods::<impl char>::(\w+)', c)
+    if mm:
+        f = mm.group(1)
+        t = D(args[0]).t
+        rng = lambda a, b: z3.And(z3.UGE(t, ord(a)), z3.ULE(t, ord(b)))
+        if f == 'is_ascii':
+            return z3.ULT(t, 128)
+        if f == 'is_ascii_digit':
+            return rng('0', '9')
+        if f == 'is_ascii_whitespace':
+            return z3.Or(t == 0x20, t == 0x09, t == 0x0a, t == 0x0c, t == 0x0d)
+        if f == 'is_ascii_alphabetic':
+            return z3.Or(rng('a', 'z'), rng('A', 'Z'))
+        if f == 'is_ascii_alphanumeric':
+            return z3.Or(rng('a', 'z'), rng('A', 'Z'), rng('0', '9'))
+        if f == 'is_ascii_hexdigit':
+            return z3.Or(rng('0', '9'), rng('a', 'f'), rng('A', 'F'))
+        if f == 'is_ascii_lowercase':
+            return rng('a', 'z')
+        if f == 'is_ascii_uppercase':
+            return rng('A', 'Z')
+        if f == 'is_ascii_punctuation':
+            return z3.Or(rng('!', '/'), rng(':', '@'), rng('[', '`'), rng('{', '~'))
+        if f == 'is_ascii_control':
+            return z3.Or(z3.ULT(t, 0x20), t == 0x7f)
+        if f == 'to_ascii_lowercase':
+            return Int(z3.If(rng('A', 'Z'), t + 32, t), False)
+        if f == 'to_ascii_uppercase':
+            return Int(z3.If(rng('a', 'z'), t - 32, t), False)
+        if f == 'eq_ignore_ascii_case':
+            u = D(args[1]).t
+            low = lambda x: z3.If(z3.And(z3.UGE(x, ord('A')), z3.ULE(x, ord('Z'))), x + 32, x)
+            return low(t) == low(u)
+        if f == 'is_digit':
+            radix = ex.concrete_int(args[1])
+            d = z3.Or(z3.And(z3.UGE(t, ord('0')), z3.ULE(t, ord('0') + min(radix, 10) - 1)))
+            if radix > 10:
+                d = z3.Or(d, z3.And(z3.UGE(t, ord('a')), z3.ULE(t, ord('a') + radix - 11)), z3.And(z3.UGE(t, ord('A')), z3.ULE(t, ord('A') + radix - 11)))
+            return d
+        if f in ('is_alphabetic', 'is_alphanumeric', 'is_numeric', 'is_lowercase', 'is_uppercase', 'is_control'):
+            return ex.uf('char_' + f, z3.BitVecSort(32), z3.BoolSort())(t)
+        if f == 'len_utf8':
+            return Int(utf8_width(z3.ZeroExt(32, t)), False)
+    if c == 'core::str::<impl str>::eq_ignore_ascii_case':
+        a, b = to_sstr(ex, args[0]), to_sstr(ex, args[1])
+        if not (a.is_plain() and b.is_plain()):
+            raise Unsupported('eq_ignore_ascii_case with opaque segment')
+        la, lb = str_byte_len(a), str_byte_len(b)
+        if len(a.items) != len(b.items):
+            # different char counts can still have equal byte lengths only with non-ASCII chars, which never compare equal to ASCII-folded others unless identical
+            return z3.BoolVal(False) if True else None
+        low = lambda x: z3.If(z3.And(z3.UGE(x, ord('A')), z3.ULE(x, ord('Z'))), x + 32, x)
+        return z3.And(*[low(x.t) == low(y.t) for x, y in zip(a.items, b.items)]) if a.items else z3.BoolVal(True)
+    if c in ('core::str::<impl str>::is_empty', 'std::string::String::is_empty'):
+        return z3.BoolVal(len(to_sstr(ex, args[0]).items) == 0)
+    if c in ('core::str::<impl str>::starts_with', 'core::str::<impl str>::ends_with'):
+        s = to_sstr(ex, args[0])
+        pat = D(args[1])
+        if isinstance(pat, Int):
+            pat = SStr([pat])
+        if not isinstance(pat, SStr):
+            raise Unsupported('starts_with pattern %r' % (pat,))
+        n = len(pat.items)
+        if len(s.items) < n:
+            return z3.BoolVal(False)
+        seg = s.items[:n] if c.endswith('starts_with') else s.items[len(s.items) - n:]
+        return z3.And(*[x.t == y.t for x, y in zip(seg, pat.items)]) if n else z3.BoolVal(True)
+    if c == 'core::str::<impl str>::contains':
+        s = to_sstr(ex, args[0])
+        pat = D(args[1])
+        if isinstance(pat, Int):
+            return z3.Or(*[x.t == pat.t for x in s.items]) if s.items else z3.BoolVal(False)
+        if isinstance(pat, SStr):
+            n = len(pat.items)
+            alts = [z3.And(*[x.t == y.t for x, y in zip(s.items[i:i + n], pat.items)]) if n else z3.BoolVal(True) for i in range(0, len(s.items) - n + 1)]
+            return z3.Or(*alts) if alts else z3.BoolVal(False)
+        raise Unsupported('contains pattern %r' % (pat,))
+    if c == 'core::str::<impl str>::is_char_boundary':
+        s = to_sstr(ex, args[0])
+        pref = [bv(0, 64)]
+        for ch in s.items:
+            pref.append(pref[-1] + utf8_width(z3.ZeroExt(32, ch.t)))
+        return z3.Or(*[args[1].t == p_ for p_ in pref])
+    if c in ('<Chars<\'_> as Iterator>::count', '<std::str::Chars<\'_> as Iterator>::count'):
+        it = args[0]
+        return usize(it.end - it.pos)
+    if c.endswith(' as Iterator>::count'):
+        it = args[0]
+        if isinstance(it, (IterV, CharsV)):
+            return usize(it.end - it.pos)
+        if isinstance(it, OwnIter):
+            return usize(len(it.items) - it.pos)
+        raise Unsupported('count on %r' % (it,))
+    if c.endswith(' as Iterator>::rev') or c.endswith(' as DoubleEndedIterator>::rev'):
+        it = args[0]
+        if isinstance(it, IterV):
+            v = D(it.ref)
+            return OwnIter([Ref(it.ref.cell, list(it.ref.path) + [('index', j)]) for j in range(it.end - 1, it.pos - 1, -1)])
+        if isinstance(it, CharsV):
+            v = D(it.ref)
+            return OwnIter(list(reversed(v.items[it.pos:it.end])))
+        if isinstance(it, OwnIter):
+            return OwnIter(list(reversed(it.items[it.pos:])))
+        raise Unsupported('rev on %r' % (it,))
+    if c.endswith(' as Iterator>::enumerate'):
+        it = args[0]
+        if isinstance(it, IterV):
+            return OwnIter([Adt('tuple', 0, [usize(j - it.pos), Ref(it.ref.cell, list(it.ref.path) + [('index', j)])]) for j in range(it.pos, it.end)])
+        if isinstance(it, CharsV):
+            v = D(it.ref)
+            return OwnIter([Adt('tuple', 0, [usize(j - it.pos), v.items[j]]) for j in range(it.pos, it.end)])
+        if isinstance(it, OwnIter):
+            return OwnIter([Adt('tuple', 0, [usize(j), x]) for j, x in enumerate(it.items[it.pos:])])
+        raise Unsupported('enumerate on %r' % (it,))
+    if c.endswith(' as Iterator>::skip') or c.endswith(' as Iterator>::take'):
+        it = copy_value(args[0])
+        n = ex.concrete_int(args[1])
+        skip = c.endswith('skip')
+        if isinstance(it, (IterV, CharsV)):
+            if skip:
+                it.pos = min(it.end, it.pos + n)
+            else:
+                it.end = min(it.end, it.pos + n)
+            return it
+        if isinstance(it, OwnIter):
+            return OwnIter(it.items[it.pos + n:] if skip else it.items[it.pos:it.pos + n])
+        raise Unsupported('skip/take on %r' % (it,))
+    if c.endswith(' as Iterator>::chain'):
+        return AdaptV('chain', args[0], args[1])
+    if c.endswith(' as Iterator>::filter'):
+        return AdaptV('filter', args[0], args[1])
+    if c.endswith(' as Iterator>::any'):
+        return ('BODY', synth_static(ex, '__iter_any'), args)
+    if c.endswith(' as Iterator>::all'):
+        return ('BODY', synth_static(ex, '__iter_all'), args)
+    if c.endswith(' as Iterator>::collect') or c.endswith(' as Iterator>::last'):
+        if c.endswith('collect'):
+            it = args[0]
+            return ('BODY', synth_static(ex, '__drain'), [Ref(st.new_cell(it), [])])
+        raise Unsupported(c)
+    if c.endswith(' as Iterator>::next_back') or c.endswith(' as DoubleEndedIterator>::next_back'):
+        it = D(args[0])
+        if isinstance(it, IterV):
+            if it.pos >= it.end:
+                return none()
+            it.end -= 1
+            return some(Ref(it.ref.cell, list(it.ref.path) + [('index', it.end)]))
+        if isinstance(it, CharsV):
+            if it.pos >= it.end:
+                return none()
+            it.end -= 1
+            return some(D(it.ref).items[it.end])
+        raise Unsupported('next_back on %r' % (it,))
     if c == 'core::str::<impl str>::strip_prefix':
         s = to_sstr(ex, args[0])
         pre = to_sstr(ex, args[1])
@@ -1028,15 +1435,31 @@ def model(ex, st, c, args):
         else:
             out = SStr([Opaque(kind, (SStr(s.items),))])
         return Ref(st.new_cell(out), []) if kind == 'trim' else out
-    if c == 'core::str::<impl str>::get' or re.fullmatch(r'<(std::string::String|str) as Index<std::ops::Range<usize>>>::index', c):
+    if c == 'core::str::<impl str>::get' or re.fullmatch(r'<(std::string::String|str) as Index<std::ops::Range\w*<usize>>>::index', c) \
+            or c == 'core::str::<impl str>::split_at':
         s = to_sstr(ex, args[0])
         rng = args[1]
-        start, end = rng.fields[0], rng.fields[1]
         if not s.is_plain():
             raise Unsupported('slicing a string with an opaque segment')
         pref = [bv(0, 64)]
         for ch in s.items:
             pref.append(z3.simplify(pref[-1] + utf8_width(z3.ZeroExt(32, ch.t))))
+        if isinstance(rng, Int):
+            start, end = Int(bv(0, 64), False), rng
+        elif rng.ty == 'Range':
+            start, end = rng.fields[0], rng.fields[1]
+        elif rng.ty == 'RangeTo':
+            start, end = Int(bv(0, 64), False), rng.fields[0]
+        elif rng.ty == 'RangeFrom':
+            start, end = rng.fields[0], Int(pref[-1], False)
+        elif rng.ty == 'RangeInclusive':
+            start, end = rng.fields[0], Int(rng.fields[1].t + 1, False)
+        elif rng.ty == 'RangeToInclusive':
+            start, end = Int(bv(0, 64), False), Int(rng.fields[0].t + 1, False)
+        elif rng.ty == 'RangeFull':
+            start, end = Int(bv(0, 64), False), Int(pref[-1], False)
+        else:
+            raise Unsupported('string index by %s' % rng.ty)
         opts = []
         n = len(s.items)
         for i in range(n + 1):
@@ -1044,6 +1467,10 @@ def model(ex, st, c, args):
                 opts.append((z3.And(start.t == pref[i], end.t == pref[j]), (i, j)))
         opts.append((z3.Not(z3.Or(*[o[0] for o in opts])), 'panic'))
         t = B(opts)
+        if c.endswith('::split_at'):
+            if t == 'panic':
+                raise Panic('split_at: byte index is not a char boundary')
+            return Adt('tuple', 0, [Ref(st.new_cell(SStr(s.items[:t[1]])), []), Ref(st.new_cell(SStr(s.items[t[1]:])), [])])
         if c.endswith('::get'):
             if t == 'panic':
                 return none()
@@ -1338,6 +1765,18 @@ def iter_next(ex, st, it, handle, c):
             return ('BODY', synth_static(ex, '__filter_map_next'), [end])
         if it.kind == 'map':
             return ('BODY', synth_static(ex, '__map_next'), [end])
+        if it.kind == 'filter':
+            return ('BODY', synth_static(ex, '__filter_next'), [end])
+        if it.kind == 'chain':
+            first = iter_next(ex, st, it.it, Ref(end.cell, list(end.path) + [('attr', 'it')]), c)
+            if isinstance(first, Adt) and first.ty == 'Option':
+                if first.variant == 1:
+                    return first
+                return iter_next(ex, st, it.fn, Ref(end.cell, list(end.path) + [('attr', 'fn')]), c)
+            if isinstance(first, tuple) and first[0] == 'BODY':
+                # crate iterator as first half: run it; when it is exhausted the caller must continue with the second half.
+                raise Unsupported('chain whose first half is a non-native iterator')
+            raise Unsupported('chain over %r' % (it.it,))
         if it.kind == 'cloned':
             r = iter_next(ex, st, it.it, Ref(end.cell, list(end.path) + [('attr', 'it')]), c)
             if isinstance(r, Adt) and r.ty == 'Option':
